@@ -55,8 +55,8 @@ theorem startEnv_trapOK (c : Case) : TrapOK (initOf c) (startEnv c) := by
 /-! ### every step of a program keeps it -/
 
 theorem getTty_trapState (env : Env) : (getTty env).trapState = env.trapState := by
-  unfold getTty
-  split <;> rfl
+  unfold Env.trapState
+  rw [getTty_traps, (getTty_is_own_calls' env).2.2.2.1]
 
 theorem monitorChanged_trapOK (init : Nat → Disp) (hinit : ∀ s, init s ≠ .catch) (o : String) (env : Env)
     (h : TrapOK init env) : TrapOK init (monitorChanged o env) := by
